@@ -347,7 +347,11 @@ def detect_spec_version(stix_dict):
         v = max(
             "2.1",
             max(
-                detect_spec_version(obj) for obj in stix_dict["objects"]
+                (
+                    detect_spec_version(obj)
+                    for obj in stix_dict.get("objects", [])
+                ),
+                default="2.1",
             ),
         )
     elif obj_type in mappings.STIX2_OBJ_MAPS["2.1"]["observables"]:
